@@ -244,6 +244,38 @@ func runSurveyorScenario(c *Ctx, nops int, zeroTime bool) {
 	e.Finish()
 }
 
+// directed: survey time 0 is the documented "no limit".  The survey is still the current one — its Recv still waiting —
+// after more than the default survey time (one second) has passed, and a response arriving then is delivered.
+func runSurveyNoLimitOutlastsDefault(c *Ctx) {
+	e := NewExec(c, "m.surv", surveyor.NewProtocol(), "surveyor")
+	e.timed, e.canonIDs = true, true
+	e.AddPipe(801)
+	e.SetOpt(0, mangos.OptionSurveyTime, "0", time.Duration(0))
+	e.Send(0, nil, []byte{'Q', 9})
+	if !e.idKnown {
+		e.Finish()
+		return
+	}
+	rcv := e.Recv(0)
+	e.Sleep(1150)
+	for _, ev := range splitEvents(lastObs(e)) {
+		if ev.kind == "ret" && ev.call == rcv {
+			c.Violate(fmt.Sprintf("SURVEYOR: with survey time 0 (no limit) the Recv of the current survey returned %q after 1.15 s although nothing had arrived and nothing was cancelled", ev.err), e.Replay())
+		}
+	}
+	e.InjectCanon(801, append(be32(0x80000001), 'l', 'a', 't', 'e'))
+	got := false
+	for _, ev := range splitEvents(lastObs(e)) {
+		if ev.kind == "ret" && ev.call == rcv && ev.msg != nil {
+			got = true
+		}
+	}
+	if !got && !e.broken {
+		c.Violate(fmt.Sprintf("SURVEYOR: with survey time 0 (no limit) a response arriving 1.15 s after the survey was not delivered to the waiting Recv: %s", lastObs(e)), e.Replay())
+	}
+	e.Finish()
+}
+
 func runC07(c *Ctx) {
 	c.Rep.Rule = "random histories on a real surveyor protocol instance through virtual pipes with a 60 ms survey time: surveys on 1-3 contexts, responses carrying the current / an earlier / another context's / a never-issued id, ids without the request bit, short bodies, Recv before and after expiry (real sleeps), slow and failing respondents; " +
 		"ids canonicalised to 0x80000000|k; every operation (with the monotonic clock) is checked against the Lean machine whose timers may fire once due and must have fired once overdue; class = (operation, shape of outcome)"
@@ -257,6 +289,7 @@ func runC07(c *Ctx) {
 	for i := 0; i < n/8+2; i++ {
 		runSurveyorScenario(c, 25, true) // an accepted survey time of zero means no limit
 	}
+	runSurveyNoLimitOutlastsDefault(c)
 	// raw SURVEYOR: no survey state, but every connected respondent is sent each survey, queue space permitting
 	// "each RESPONDENT answer reaches only the surveyor that asked": the reply-side machine of C05 on the two respondent flavours
 	for i := 0; i < n/2; i++ {
